@@ -50,3 +50,23 @@ func CompareAndSwapUint64(a *uint64, o, n uint64) bool {
 	at(unsafe.Pointer(a), "atomic.CompareAndSwapUint64")
 	return atomic.CompareAndSwapUint64(a, o, n)
 }
+
+// Pointer stands in for atomic.Pointer[T]: the real atomic underneath, each operation a modelled
+// atomic step keyed on the variable's address.
+type Pointer[T any] struct {
+	p atomic.Pointer[T]
+}
+
+func (x *Pointer[T]) Load() *T { at(unsafe.Pointer(x), "atomic.Pointer.Load"); return x.p.Load() }
+func (x *Pointer[T]) Store(v *T) {
+	at(unsafe.Pointer(x), "atomic.Pointer.Store")
+	x.p.Store(v)
+}
+func (x *Pointer[T]) Swap(v *T) *T {
+	at(unsafe.Pointer(x), "atomic.Pointer.Swap")
+	return x.p.Swap(v)
+}
+func (x *Pointer[T]) CompareAndSwap(o, n *T) bool {
+	at(unsafe.Pointer(x), "atomic.Pointer.CompareAndSwap")
+	return x.p.CompareAndSwap(o, n)
+}
